@@ -26,6 +26,8 @@ Dialect rules (the only differences between the verified text and the text that 
   D13 explicit token substitutions given in a directive (`subst="Self::Item=>usize"`), for associated
       types of trait impls the world drops
   D12 assert!/panic! format arguments are dropped (message text is not part of the behaviour verified)
+  D15 type parameters of an impl block that were renamed in the repository are renamed back (identifier tokens of the
+      extracted function only) to the names the template's impl header uses, when the headers agree up to that renaming
   D14 (only with `optmap=1`) `RECV.map(|x| BODY)` on an `Option` receiver is unfolded by std's definition of
       `Option::map`:  `(match RECV { Some(x) => Some(BODY), None => None })`  — Verus has no closures that capture `&mut`.
       Trusted: that definition (the closure runs exactly once, on the `Some` payload).
@@ -525,6 +527,9 @@ class World:
         it = sf.fn(impl_pat, d["name"])
         sig, body = split_fn(it)
         log = []
+        if it.rename:
+            # D15: the impl block was matched after renaming its type parameters to the names the template uses
+            log.append("D15 alpha-renamed " + ",".join(f"{a}->{b}" for a, b in sorted(it.rename.items())))
         head, where_txt, pre_stmt = transform_signature(sig, d, log)
         if d.get("vis") == "pub" and not head.startswith("pub"):
             head = "pub " + head
@@ -569,7 +574,12 @@ class World:
             self.emit(indent + "    " + " ".join(where_txt.split()), fn=fid, part="sig")
         for (label, text) in contract:
             self.emit(indent + text, fn=fid, part="contract", label=label)
-        self.emit(indent + body, fn=fid, part="body")
+        if fid in self.external:
+            # (rustc still type-checks the body of an external_body function: a call to a helper that is not part of the
+            # world would sink the whole file, so the body is not emitted at all)
+            self.emit(indent + "{ unimplemented!() }", fn=fid, part="body")
+        else:
+            self.emit(indent + body, fn=fid, part="body")
         self.functions.append(dict(id=fid, file=d["file"], impl=impl_pat, name=d["name"], line=it.line, end_line=it.end_line,
                                    hash=body_hash(it.text), rules=log, tags=[t for t in d.get("tags", "").split(",") if t],
                                    reading=d.get("reading", "total"), kind="fn",
